@@ -138,6 +138,8 @@ class Gen:
                 out.append(["callcap", k, self.id()])
             elif kind == "callhook":
                 out.append(["callhook", r.below(4), self.id()])
+            elif kind == "overflow":
+                out.append(["overflow", self.id()])
             elif kind == "setrange":
                 out.append(["setrange", k])
             elif kind == "cmprange":
@@ -147,7 +149,7 @@ class Gen:
 
 KINDS_W = [("set", 10), ("inc", 10), ("assign", 6), ("chk", 12), ("probe", 10), ("call", 12), ("tryfin", 8), ("trycatch", 6),
            ("fiber", 6), ("fiber2", 4), ("method", 5), ("classcrash", 3), ("deffn", 5), ("callfn", 7), ("defclass", 4),
-           ("useclass", 5), ("deffiber", 4), ("resume", 7), ("import", 6), ("modcall", 6), ("throw", 5), ("poke", 3), ("corelib", 6), ("shadow", 4), ("useshadow", 6), ("capcrash", 5), ("callcap", 7), ("callhook", 7), ("setrange", 3), ("cmprange", 5)]
+           ("useclass", 5), ("deffiber", 4), ("resume", 7), ("import", 6), ("modcall", 6), ("throw", 5), ("poke", 3), ("corelib", 6), ("shadow", 4), ("useshadow", 6), ("capcrash", 5), ("callcap", 7), ("callhook", 7), ("setrange", 3), ("cmprange", 5), ("overflow", 3)]
 
 
 def gen_session(seed):
@@ -278,6 +280,11 @@ def render_snip(stmts, uid, stale=()):
             # a callback a module body handed to the registry module - possibly a module whose body failed afterwards
             out.append('import "smreg"; if smreg.hooks.len() > %d { print(("ev", %d, smreg.hooks[%d]())); } else { print(("ev", %d, "nohook")); }' % (
                 st[1], st[2], st[1], st[2]))
+        elif k == "overflow":
+            # recursion to the frame limit; the handler annotates the error object it caught (its own business: the next such
+            # error must be a fresh one)
+            out.append("fn rec%s(n) { return rec%s(n + 1) + 1; }" % (u, u))
+            out.append('try { rec%s(0); } catch e { print(("ev", %d, type(e), e.context)); e.context = "seen before: " + e.context; e.note = %d; }' % (u, st[1], st[1]))
         elif k == "setrange":
             # a range kept in a global; at most three distinct ranges exist per session, so the interpreter's 8-entry range
             # cache never evicts and an equal range literal evaluated later is == to it (and finds it as a map key)
@@ -573,6 +580,9 @@ def model(ir, faults):
                         ev.append([num(stt[2]), num(ms["mv"])])
                     else:
                         ev.append([num(stt[2]), s("nohook")])
+                elif k == "overflow":
+                    probes.inc("frame_limit_reached_and_caught")
+                    ev.append([num(stt[1]), cls("IndexError"), s("Stack overflow.")])
                 elif k == "setrange":
                     st["ranges"].add(stt[1])
                 elif k == "cmprange":
